@@ -55,6 +55,10 @@ pub struct PrepCase {
     /// but carries its own, different objective value (e.g. re-evaluated under a changed objective)
     #[serde(default)]
     pub alias: Option<u8>,
+    /// on-wall collision / decomposition: objective values of the population and of the first product lie 9e15 higher
+    /// (kinetic energies, buffer and the second product stay small: differences of a few representable steps)
+    #[serde(default)]
+    pub huge: bool,
 }
 
 fn ind(tag: usize, obj: f64) -> Individual<RealP> {
@@ -69,7 +73,7 @@ impl Check for PrepCheck {
         "C20/prepared-reactions".into()
     }
     fn classes(&self) -> &'static [&'static str] {
-        &["rejected reaction", "accepted only with buffer help", "accepted", "zero kinetic energy", "equal-by-value reactants", "population of one", "on-wall product energy within two representable values of the reactant's total energy", "energies in a unit of 1e-17", "a bystander encodes the same solution as the second reactant"]
+        &["rejected reaction", "accepted only with buffer help", "accepted", "zero kinetic energy", "equal-by-value reactants", "population of one", "on-wall product energy within two representable values of the reactant's total energy", "energies in a unit of 1e-17", "a bystander encodes the same solution as the second reactant", "objective values 9e15 apart from the kinetic energies (differences of a few representable steps)"]
     }
     fn oracle(&self, c: &PrepCase) -> Outcome {
         let mut cl = 0;
@@ -111,6 +115,13 @@ fn prep_oracle(c: &PrepCase, cl: &mut u64) -> Result<(), Failure> {
         c.p1 *= 1e-17;
         c.p2 *= 1e-17;
         *cl |= 128;
+    }
+    if c.huge && !c.tiny && matches!(c.reaction, Reaction::OnWall | Reaction::Decomposition) {
+        for p in c.pop.iter_mut() {
+            p.0 += 9e15;
+        }
+        c.p1 += 9e15;
+        *cl |= 512;
     }
     if let (Reaction::OnWall, Some(k)) = (c.reaction, c.p1_ulps) {
         let mut v = c.pop[r1].0 + c.pop[r1].1;
@@ -407,13 +418,70 @@ fn prep_strategy() -> impl Strategy<Value = PrepCase> {
         prop_oneof![4 => -10.0f64..40.0, 1 => 100.0f64..1000.0],
         prop_oneof![Just(0.0), Just(0.5), 0.0f64..0.99],
         any::<u64>(),
-        (prop_oneof![4 => Just(false), 1 => Just(true)], prop_oneof![3 => Just(None), 1 => (-2i8..3).prop_map(Some)], prop_oneof![5 => Just(false), 1 => Just(true)], prop_oneof![2 => Just(None), 1 => any::<u8>().prop_map(Some)]),
+        (prop_oneof![4 => Just(false), 1 => Just(true)], prop_oneof![3 => Just(None), 1 => (-2i8..3).prop_map(Some)], prop_oneof![5 => Just(false), 1 => Just(true)], prop_oneof![2 => Just(None), 1 => any::<u8>().prop_map(Some)], prop_oneof![5 => Just(false), 1 => Just(true)]),
     )
-        .prop_map(|(reaction, pop, buffer, r1, r2, p1, p2, lr, seed, (duplicate, p1_ulps, tiny, alias))| PrepCase { reaction, pop, buffer, r1, r2, p1, p2, lr, seed, duplicate, p1_ulps, tiny, alias })
+        .prop_map(|(reaction, pop, buffer, r1, r2, p1, p2, lr, seed, (duplicate, p1_ulps, tiny, alias, huge))| PrepCase { reaction, pop, buffer, r1, r2, p1, p2, lr, seed, duplicate, p1_ulps, tiny, alias, huge })
+}
+
+/// `ChemicalReactionInit` executed on a population of `first` individuals and later, in the same state, on one of
+/// `second` individuals (a second stage of the same run after a truncation or restart).
+#[derive(Clone, Debug, Serialize, Deserialize)]
+pub struct InitCase {
+    pub first: u8,
+    pub second: u8,
+    pub nest: u8,
+}
+
+pub struct InitCheck;
+
+impl Check for InitCheck {
+    type Case = InitCase;
+    fn name(&self) -> String {
+        "C20/reaction-init".into()
+    }
+    fn classes(&self) -> &'static [&'static str] {
+        &["second population smaller", "second population larger", "empty population"]
+    }
+    fn oracle(&self, c: &InitCase) -> Outcome {
+        use mahf::components::misc::cro::ChemicalReactionInit;
+        let (n1, n2) = ((c.first % 9) as usize, (c.second % 9) as usize);
+        let mut cl = 0;
+        if n2 < n1 {
+            cl |= 1;
+        }
+        if n2 > n1 {
+            cl |= 2;
+        }
+        if n1 == 0 || n2 == 0 {
+            cl |= 4;
+        }
+        let r = (|| -> Result<(), Failure> {
+            let problem = RealP::new(1, 0.0, 1.0, RealKind::Tag);
+            let mut st = state_with::<RealP>(vec![(0..n1).map(|k| ind(k, k as f64)).collect()], 1);
+            let comp: Box<dyn Component<RealP>> = ChemicalReactionInit::new::<RealP>(2.5, 7.0);
+            let init: Box<dyn Component<RealP>> = ChemicalReactionInit::new::<RealP>(2.5, 7.0);
+            init.init(&problem, &mut st).map_err(|e| Failure::new("C20 ChemicalReactionInit init fails", format!("{e:#}")))?;
+            for (stage, n) in [(1, n1), (2, n2)] {
+                if stage == 2 {
+                    *st.populations_mut().current_mut() = (0..n).map(|k| ind(50 + k, 100.0 + k as f64)).collect();
+                }
+                let r = catch(|| comp.execute(&problem, &mut st));
+                ensure_that!(matches!(r, Ok(Ok(()))), "C20 ChemicalReactionInit fails", "{c:?}: stage {stage}: {r:?}");
+                let mols = st.borrow::<ChemicalReaction<RealP>>();
+                let ps = st.populations();
+                ensure_that!(mols.len() == n && ps.current().len() == n, "C20 molecule list not aligned with the population", "{c:?}: after initialising the reaction the {stage}. time there are {} molecule records for {} individuals", mols.len(), ps.current().len());
+                for (k, (m, i)) in mols.iter().zip(ps.current().iter()).enumerate() {
+                    ensure_that!(m.best == *i && m.kinetic_energy == 2.5 && m.num_hit == 0, "C20 molecule list not aligned with the population", "{c:?}: stage {stage}: molecule {k} does not describe individual {k} (best {:?}, kinetic energy {}, hits {})", m.best.solution(), m.kinetic_energy, m.num_hit);
+                }
+            }
+            Ok(())
+        })();
+        Outcome::new(cl & 1 != 0, cl, r)
+    }
 }
 
 pub fn run_all(ctx: &mut Ctx, replay: Option<&Path>) {
-    ctx.rule("prepared: case = (reaction, population of 1-6 tagged individuals with objective and kinetic energy, buffer, reactant indices, product objectives, loss rate, seed, optionally two equal-by-value reactants, a bystander that encodes the second reactant's solution with another objective value, energies in a unit of 1e-17, an on-wall product energy within two representable values of the reactant's total energy) on a stack [below, population, reactants, products] with an aligned molecule list; oracle: stack height -2, population below untouched, |E_after - E_before| <= 1e-9 (1 + sum |terms|) for E = sum objective + sum kinetic + buffer, kinetic energies and buffer >= 0, one molecule per individual in the same order, products at the modelled indices (replace at r, push on decomposition, remove on synthesis), untouched molecules unchanged, acceptance exactly when the energy condition holds (for decomposition: must accept without buffer need, must reject when even the whole buffer is not enough), rejected reactions change nothing but hit counters; non-trivial = rejected or buffer-assisted cases. runs: real_cro with the observer: the same energy / alignment / stack audit around every update step; non-trivial = runs in which all four reactions occurred; distinct by case");
+    ctx.rule("prepared: case = (reaction, population of 1-6 tagged individuals with objective and kinetic energy, buffer, reactant indices, product objectives, loss rate, seed, optionally two equal-by-value reactants, a bystander that encodes the second reactant's solution with another objective value, energies in a unit of 1e-17, an on-wall product energy within two representable values of the reactant's total energy) on a stack [below, population, reactants, products] with an aligned molecule list; oracle: stack height -2, population below untouched, |E_after - E_before| <= 1e-9 (1 + sum |terms|) for E = sum objective + sum kinetic + buffer, kinetic energies and buffer >= 0, one molecule per individual in the same order, products at the modelled indices (replace at r, push on decomposition, remove on synthesis), untouched molecules unchanged, acceptance exactly when the energy condition holds (for decomposition: must accept without buffer need, must reject when even the whole buffer is not enough), rejected reactions change nothing but hit counters; non-trivial = rejected or buffer-assisted cases. initialisation: the reaction initialisation executed twice in one state on populations of different sizes gives one fresh molecule record per current individual both times. runs: real_cro with the observer: the same energy / alignment / stack audit around every update step; non-trivial = runs in which all four reactions occurred; distinct by case");
     let p = PrepCheck;
     let r = RunCheck;
     if let Some(path) = replay {
@@ -422,6 +490,9 @@ pub fn run_all(ctx: &mut Ctx, replay: Option<&Path>) {
     }
     ctx.regressions(&p);
     ctx.regressions(&r);
+    let i = InitCheck;
+    ctx.regressions(&i);
+    ctx.exhaustive(&i, "reaction initialisation executed twice in one state: first population 0-8 x second population 0-8 individuals", (0u8..9).flat_map(|a| (0u8..9).map(move |b| InitCase { first: a, second: b, nest: 0 })));
     ctx.random(&p, prep_strategy(), ctx.tier.pick(100_000, 500_000));
     let runs = inst_strategy(Kind::Real).prop_flat_map(|inst| (tpl_strategy(18, inst.dim()), Just(inst), 5u32..60, any::<u64>())).prop_map(|(tpl, inst, iters, seed)| RunSpec { tpl, inst, iters, seed });
     ctx.random(&r, runs, ctx.tier.pick(5000, 25_000));
